@@ -392,7 +392,165 @@ def extract_client_consts(out: Out, c: Src):
             out.missing(F, n, e)
 
 
-EXTRACTORS = []
+def extract_bytes(out: Out, srcs):
+    F = "Consts"
+    c = srcs.get("client.py")
+    pr = srcs.get("properties.py")
+
+    def remlen():
+        f = c.func("Client._pack_remaining_length")
+        wh = [n for n in f.body if isinstance(n, ast.While)]
+        if len(wh) != 1:
+            raise Missing("while True")
+        body = wh[0].body
+        # byte = remaining_length % 128 ; remaining_length = remaining_length // 128
+        a0, a1 = body[0], body[1]
+        if not (isinstance(a0, ast.Assign) and unparse(a0.targets[0]) == "byte" and isinstance(a0.value, ast.BinOp)
+                and isinstance(a0.value.op, ast.Mod) and unparse(a0.value.left) == "remaining_length"):
+            raise Missing("byte = remaining_length % 128")
+        if not (isinstance(a1, ast.Assign) and unparse(a1.targets[0]) == "remaining_length" and isinstance(a1.value, ast.BinOp)
+                and isinstance(a1.value.op, ast.FloorDiv) and unparse(a1.value.left) == "remaining_length"):
+            raise Missing("remaining_length = remaining_length // 128")
+        base = the([const(a0.value.right), const(a1.value.right)], "base")
+        i2 = body[2]
+        if not (isinstance(i2, ast.If) and unparse(i2.test) == "remaining_length > 0" and len(i2.body) == 1
+                and isinstance(i2.body[0], ast.AugAssign) and isinstance(i2.body[0].op, ast.BitOr)
+                and unparse(i2.body[0].target) == "byte"):
+            raise Missing("if remaining_length > 0: byte |= 0x80")
+        flag = const(i2.body[0].value)
+        rest = "\n".join(unparse(b) for b in body[3:])
+        if "packet.append(byte)" not in rest or "if remaining_length == 0" not in rest:
+            raise Missing("append / termination test")
+        return base, flag
+    try:
+        base, flag = remlen()
+        out.add(F, "rlBase", "Nat", str(base), "client.py Client._pack_remaining_length: % 128, // 128")
+        out.add(F, "rlFlag", "Nat", str(flag), "client.py Client._pack_remaining_length: byte |= 0x80")
+    except Missing as e:
+        out.missing(F, "rlBase", e)
+        out.missing(F, "rlFlag", e)
+
+    def vbi():
+        f = pr.func("VariableByteIntegers.encode")
+        iff = [n for n in f.body if isinstance(n, ast.If)][0]
+        t = iff.test
+        # not 0 <= x <= 268435455
+        if not (isinstance(t, ast.UnaryOp) and isinstance(t.op, ast.Not) and isinstance(t.operand, ast.Compare)
+                and len(t.operand.ops) == 2 and all(isinstance(o, ast.LtE) for o in t.operand.ops)
+                and unparse(t.operand.comparators[0]) == "x"):
+            raise Missing("if not 0 <= x <= 268435455")
+        lo, hi = const(t.operand.left), const(t.operand.comparators[1])
+        body = "\n".join(unparse(b) for b in f.body)
+        for frag in ("digit = x % 128", "x //= 128", "digit |= 128", "if x > 0", "if x == 0"):
+            if frag not in body:
+                raise Missing("VBI encode loop: " + frag)
+        d = pr.func("VariableByteIntegers.decode")
+        dbody = "\n".join(unparse(b) for b in d.body)
+        for frag in ("value += (digit & 127) * multiplier", "if digit & 128 == 0", "multiplier *= 128", "bytes += 1"):
+            if frag not in dbody:
+                raise Missing("VBI decode loop: " + frag)
+        return lo, hi
+    try:
+        lo, hi = vbi()
+        out.add(F, "vbiLo", "Int", lean_val(lo, "Int"), "properties.py VariableByteIntegers.encode: if not 0 <= x <= 268435455 (same %128 //128 |0x80 loop as _pack_remaining_length; decode loop shape checked)")
+        out.add(F, "vbiHi", "Int", lean_val(hi, "Int"), "properties.py VariableByteIntegers.encode")
+    except Missing as e:
+        out.missing(F, "vbiLo", e)
+        out.missing(F, "vbiHi", e)
+
+
+def extract_tables(out: Out, srcs):
+    """property table, reason-code table (evaluated from the source's own table-building
+    statements by instantiating the classes of the working tree) + allowsMultiple ids and
+    the __setattr__ range rules (AST)."""
+    F = "Tables"
+    import importlib
+    try:
+        props_mod = importlib.import_module("paho.mqtt.properties")
+        rc_mod = importlib.import_module("paho.mqtt.reasoncodes")
+        pt_mod = importlib.import_module("paho.mqtt.packettypes")
+        if not os.path.realpath(props_mod.__file__).startswith(os.path.realpath(REPO_SRC)):
+            raise Missing("paho imported from " + props_mod.__file__)
+        p = props_mod.Properties(pt_mod.PacketTypes.CONNECT)
+        names = list(p.names.items())
+        rows = [(i, t, list(pk)) for i, (t, pk) in p.properties.items()]
+        types = list(p.types)
+        out.add(F, "propTypes", "List String", "[" + ", ".join(json.dumps(t) for t in types) + "]", "properties.py Properties.__init__: self.types")
+        out.add(F, "propNames", "List (String × Nat)", "[" + ", ".join(f"({json.dumps(n.replace(' ', ''))}, {i})" for n, i in names) + "]",
+                "properties.py Properties.__init__: self.names (dict order = pack order), spaces removed")
+        out.add(F, "propRows", "List (Nat × Nat × List Nat)", "[" + ",\n  ".join(f"({i}, {t}, {pk})" for i, t, pk in rows) + "]",
+                "properties.py Properties.__init__: self.properties  (id, type index, packet types)")
+        r = rc_mod.ReasonCode(pt_mod.PacketTypes.PUBACK)
+        rrows = []
+        for val, d in r.names.items():
+            rrows.append(f"({val}, [" + ", ".join(f"({json.dumps(n)}, {list(pk)})" for n, pk in d.items()) + "])")
+        out.add(F, "reasonRows", "List (Nat × List (String × List Nat))", "[" + ",\n  ".join(rrows) + "]",
+                "reasoncodes.py ReasonCode.__init__: self.names")
+    except Exception as e:  # noqa: BLE001
+        for n in ("propTypes", "propNames", "propRows", "reasonRows"):
+            out.missing(F, n, f"{type(e).__name__}: {e}")
+    pr = srcs.get("properties.py")
+
+    def multi():
+        f = pr.func("Properties.allowsMultiple")
+        ret = [n for n in f.body if isinstance(n, ast.Return)][0]
+        c = ret.value
+        if not (isinstance(c, ast.Compare) and isinstance(c.ops[0], ast.In) and unparse(c.left) == "self.getIdentFromName(compressedName)"):
+            raise Missing("return self.getIdentFromName(compressedName) in [11, 38]")
+        return "[" + ", ".join(str(const(e)) for e in c.comparators[0].elts) + "]"
+    out.anchor(F, "propMultiIds", "List Nat", multi, "properties.py Properties.allowsMultiple")
+
+    def setattr_rules():
+        f = pr.func("Properties.__setattr__")
+        # find: if not isinstance(value, list): <if/elif chain>
+        guard = None
+        for iff in walk(f, ast.If):
+            if unparse(iff.test) == "not isinstance(value, list)" and guard is None and isinstance(iff.body[0], ast.If):
+                guard = iff
+        if guard is None or len(guard.body) != 1 or not isinstance(guard.body[0], ast.If):
+            raise Missing("if not isinstance(value, list): <chain>")
+        ranges, enums = [], []
+        node = guard.body[0]
+        while node is not None:
+            t = node.test
+            if not (isinstance(t, ast.BoolOp) and isinstance(t.op, ast.And) and len(t.values) == 2):
+                raise Missing("name in [...] and (...)")
+            nm, cond = t.values
+            if not (isinstance(nm, ast.Compare) and isinstance(nm.ops[0], ast.In) and unparse(nm.left) == "name"):
+                raise Missing("name in [...]")
+            nl = [const(e) for e in nm.comparators[0].elts]
+            if isinstance(cond, ast.BoolOp) and isinstance(cond.op, ast.Or):
+                a, b = cond.values
+                if not (unparse(a.left) == "value" and isinstance(a.ops[0], ast.Lt) and unparse(b.left) == "value" and isinstance(b.ops[0], ast.Gt)):
+                    raise Missing("value < lo or value > hi")
+                ranges.append((nl, const(a.comparators[0]), const(b.comparators[0])))
+            elif isinstance(cond, ast.BoolOp) and isinstance(cond.op, ast.And):
+                vals = []
+                for v in cond.values:
+                    if not (unparse(v.left) == "value" and isinstance(v.ops[0], ast.NotEq)):
+                        raise Missing("value != a and value != b")
+                    vals.append(const(v.comparators[0]))
+                enums.append((nl, vals))
+            else:
+                raise Missing("unrecognised rule " + unparse(cond))
+            if not (len(node.body) == 1 and isinstance(node.body[0], ast.Raise)):
+                raise Missing("raise MQTTException")
+            node = node.orelse[0] if node.orelse and isinstance(node.orelse[0], ast.If) else None
+        return ranges, enums
+    try:
+        ranges, enums = setattr_rules()
+        out.add(F, "propRangeRules", "List (List String × Int × Int)",
+                "[" + ", ".join(f"([{', '.join(json.dumps(n) for n in nl)}], {lean_val(lo, 'Int')}, {lean_val(hi, 'Int')})" for nl, lo, hi in ranges) + "]",
+                "properties.py Properties.__setattr__: range rules (scalar values only)")
+        out.add(F, "propEnumRules", "List (List String × List Int)",
+                "[" + ", ".join(f"([{', '.join(json.dumps(n) for n in nl)}], [{', '.join(lean_val(v, 'Int') for v in vs)}])" for nl, vs in enums) + "]",
+                "properties.py Properties.__setattr__: value != 0 and value != 1")
+    except Missing as e:
+        out.missing(F, "propRangeRules", e)
+        out.missing(F, "propEnumRules", e)
+
+
+EXTRACTORS = [extract_bytes, extract_tables]
 
 
 def register(fn):
